@@ -223,6 +223,7 @@ struct World {
     // stdin pipe (client -> server)
     stdin_buf: VecDeque<u8>,
     stdin_closed: bool,
+    stdin_failed: bool,
     stdin_waker: Option<Waker>,
     stdin_total: u64,
     // stdout pipe (server -> client)
@@ -531,6 +532,14 @@ pub mod stdio {
             }
             let res = with_world(|w| {
                 if w.stdin_buf.is_empty() {
+                    if w.stdin_failed {
+                        // a read error (EIO, connection reset): the stream ends with an error
+                        w.log(Op::StdinEof, 1, 0);
+                        return Poll::Ready(Err(std::io::Error::new(
+                            std::io::ErrorKind::Other,
+                            "simulated read error",
+                        )));
+                    }
                     if w.stdin_closed {
                         w.log(Op::StdinEof, 0, 0);
                         return Poll::Ready(Ok(()));
@@ -803,6 +812,7 @@ impl Sim {
                 tasks: vec![],
                 stdin_buf: VecDeque::new(),
                 stdin_closed: false,
+                stdin_failed: false,
                 stdin_waker: None,
                 stdin_total: 0,
                 stdout_buf: VecDeque::new(),
@@ -1003,6 +1013,18 @@ impl Sim {
         with_world(|w| {
             w.stdin_closed = true;
             w.log(Op::ClientEof, 0, 0);
+            if let Some(wk) = w.stdin_waker.take() {
+                wk.wake();
+            }
+        });
+    }
+
+    /// The client's end of the pipe breaks: once the buffered bytes are consumed every read
+    /// fails with an I/O error.
+    pub fn stdin_fail(&mut self) {
+        with_world(|w| {
+            w.stdin_failed = true;
+            w.log(Op::ClientEof, 1, 0);
             if let Some(wk) = w.stdin_waker.take() {
                 wk.wake();
             }
